@@ -154,7 +154,7 @@ def main(tier, replay):
     outroot = common.scratch('c18')
     fam = [ch for ch in C.family_E(3, 2, with_history=False)]
     cases = [('E%d' % i, 'fam', ch) for i, ch in enumerate(fam)]
-    nrand = 250 if tier == 'quick' else 4000
+    nrand = 800 if tier == 'quick' else 4000
     base = chk.seed * 1000000 + 1818
     cases += [('r%d' % i, 'rand', base + i) for i in range(nrand)]
     jobs = [(binary, os.path.join(outroot, 'w%d' % (i // 20)), cases[i:i + 20]) for i in range(0, len(cases), 20)]
